@@ -838,12 +838,18 @@ class Engine:
     def run_steps(self) -> None:
         """Run all the steps in the simulation."""
         layers = self._step_graph.get_execution_layers()
+        # the steps that exist when the phase begins
+        steps_at_start = dict(self._step_paths)
         for layer in layers:
             deferred_updates: List[Tuple[Defer, Store]] = []
             for path in layer:
                 step = self._step_paths.get(path)
                 if not step:
                     # Step was deleted by a previous step.
+                    continue
+                if step is not steps_at_start.get(path):
+                    # A previous step replaced the step at this path by
+                    # a new one, which first runs in the next phase.
                     continue
                 # Timestep shouldn't influence steps.
                 # TODO(jerry): Do something cleaner than having
